@@ -189,13 +189,17 @@ def stepPair (a : RArgs) (pair : List Char) : Py.R RArgs :=
     | .error _ => .error .ValueError
   | _ => .error .ValueError               -- unpacking error
 
+/-- the head of `_parse_rfc_rrule`: an optional `RRULE:` prefix (`name, value = line.split(':')`) -/
+def lineValue (line : List Char) : Py.R (List Char) :=
+  if line.contains ':' then
+    match splitOnChar ':' line with
+    | [name, value] => if name != lit "RRULE" then .error .ValueError else .ok value
+    | _ => .error .ValueError            -- `name, value = line.split(':')` with more than one ':'
+  else .ok line
+
 /-- `_parse_rfc_rrule(line)` up to the `rrule(**rrkwargs)` call -/
 def parseRRuleLine (line : List Char) : Py.R RArgs := do
-  let value ← (if line.contains ':' then
-      match splitOnChar ':' line with
-      | [name, value] => if name != lit "RRULE" then .error .ValueError else .ok value
-      | _ => .error .ValueError            -- `name, value = line.split(':')` with more than one ':'
-    else .ok line)
+  let value ← lineValue line
   (splitOnChar ';' value).foldlM stepPair {}
 
 /-- `if "freq" not in rrkwargs: raise ValueError` (since the C13 fix; it used to reach `rrule()` and leak TypeError) -/
@@ -285,32 +289,46 @@ def stepLine (acc : Acc) (line : List Char) : Py.R Acc :=
 
 def unfoldLines (lines : List (List Char)) : List (List Char) := ICal.unfold lines
 
-/-- `_rrulestr._parse_rfc(s, unfold, forceset, compatible)` up to the construction of the objects;
-    `dtstartKw` = whether a `dtstart=` keyword was passed (it only matters for `compatible`) -/
-def parseRfc (s0 : List Char) (o : Opts) (dtstartKw : Bool := false) : Py.R Parsed := do
-  let forceset := o.forceset || o.compatible
-  let unfold := o.unfold || o.compatible
-  let s := upper s0
-  if (strip s).isEmpty then .error .ValueError else
-  let lines := if unfold then unfoldLines (splitLines s) else splitWs s
-  if !forceset && lines.length == 1 && (!s.contains ':' || startsWith s (lit "RRULE:")) then do
-    let a ← parseRRuleLine (lines.headD [])
-    let a ← needFreq a
-    .ok (.rule a none)
+/-- the `lines` of `_parse_rfc`: unfolded `splitlines()` or plain `split()` -/
+def linesOf (s : List Char) (unfold : Bool) : List (List Char) :=
+  if unfold then unfoldLines (splitLines s) else splitWs s
+
+/-- `_parse_rfc_rrule(value, dtstart=…)` as far as the model goes: the keyword arguments, FREQ required -/
+def ruleOf (v : List Char) : Py.R RArgs := do let a ← parseRRuleLine v; needFreq a
+
+def buildRule (v : List Char) (dtstart : Option (List Char × List (List Char))) : Py.R Parsed := do
+  let a ← ruleOf v
+  .ok (.rule a dtstart)
+
+/-- the `rruleset` branch: every RRULE / EXRULE value parsed in order, RDATE values split at `,` -/
+def buildSet (acc : Acc) (compatible dtstartKw : Bool) : Py.R Parsed := do
+  let rr ← acc.rrulevals.mapM ruleOf
+  let ex ← acc.exrulevals.mapM ruleOf
+  let rdates := (acc.rdatevals.map (splitOnChar ',')).flatten
+  .ok (.set rr ex rdates acc.exdatevals acc.dtstart (compatible && (acc.dtstart.isSome || dtstartKw)))
+
+/-- the condition of the `rruleset` branch -/
+def wantsSet (forceset : Bool) (acc : Acc) : Bool :=
+  forceset || acc.rrulevals.length > 1 || !acc.rdatevals.isEmpty || !acc.exrulevals.isEmpty || !acc.exdatevals.isEmpty
+
+/-- `_parse_rfc` after upper-casing and line splitting (`s` is the upper-cased text) -/
+def parseLines (s : List Char) (lines : List (List Char)) (forceset compatible dtstartKw : Bool) : Py.R Parsed :=
+  if !forceset && lines.length == 1 && (!s.contains ':' || startsWith s (lit "RRULE:")) then
+    buildRule (lines.headD []) none
   else do
     let acc ← lines.foldlM stepLine {}
-    if forceset || acc.rrulevals.length > 1 || !acc.rdatevals.isEmpty || !acc.exrulevals.isEmpty || !acc.exdatevals.isEmpty then do
-      let rr ← acc.rrulevals.mapM (fun v => do let a ← parseRRuleLine v; needFreq a)
-      let ex ← acc.exrulevals.mapM (fun v => do let a ← parseRRuleLine v; needFreq a)
-      let rdates := (acc.rdatevals.map (splitOnChar ',')).flatten
-      .ok (.set rr ex rdates acc.exdatevals acc.dtstart (o.compatible && (acc.dtstart.isSome || dtstartKw)))
+    if wantsSet forceset acc then buildSet acc compatible dtstartKw
     else
       match acc.rrulevals with
-      | v :: _ => do
-        let a ← parseRRuleLine v
-        let a ← needFreq a
-        .ok (.rule a acc.dtstart)
+      | v :: _ => buildRule v acc.dtstart
       | [] => .error .ValueError                -- `if not rrulevals: raise ValueError` (since the C13 fix)
+
+/-- `_rrulestr._parse_rfc(s, unfold, forceset, compatible)` up to the construction of the objects;
+    `dtstartKw` = whether a `dtstart=` keyword was passed (it only matters for `compatible`) -/
+def parseRfc (s0 : List Char) (o : Opts) (dtstartKw : Bool := false) : Py.R Parsed :=
+  let s := upper s0
+  if (strip s).isEmpty then .error .ValueError
+  else parseLines s (linesOf s (o.unfold || o.compatible)) (o.forceset || o.compatible) o.compatible dtstartKw
 
 /-! ### `rrule.__str__` -/
 
